@@ -391,7 +391,8 @@ Proof.
   destruct (mc_samesite validate r) as [ss|e] eqn:Es; [|discriminate].
   assert (Hss : ss = r_samesite r).
   { unfold mc_samesite in Es. destruct (r_samesite r) as [s|]; [|injection Es as <-; reflexivity].
-    destruct (validate && negb (samesite_ok s)); [discriminate|injection Es as <-; reflexivity]. }
+    destruct validate; [destruct (samesite_ok s)|destruct (forallb is_token s)];
+      try discriminate; injection Es as <-; reflexivity. }
   subst ss. intros Hm. repeat split; try assumption; try reflexivity.
   unfold valid_cookie_name. rewrite En. reflexivity.
 Qed.
@@ -477,12 +478,36 @@ Proof.
   apply blower_letters_plain, Hl, Hm.
 Qed.
 
-Lemma validated_samesite_plain r line : make_cookie true r = Ok line -> samesite_plain r.
+(* what serialize_samesite lets through: one of the three words (validation on) or a token (validation off) *)
+Lemma emitted_samesite_checked validate r line : make_cookie validate r = Ok line ->
+  forall s, r_samesite r = Some s -> samesite_ok s = true \/ forallb is_token s = true.
 Proof.
   intros Hm s Hs. apply make_cookie_inv in Hm as (_ & _ & _ & Hss & _).
-  unfold mc_samesite in Hss. rewrite Hs in Hss. cbn [andb] in Hss.
-  destruct (samesite_ok s) eqn:Eo; [apply samesite_ok_plain, Eo|discriminate].
+  unfold mc_samesite in Hss. rewrite Hs in Hss.
+  destruct validate; [destruct (samesite_ok s) eqn:Eo|destruct (forallb is_token s) eqn:Et]; try discriminate; auto.
 Qed.
+
+Lemma tchar_plain c : tchar c = true -> plain_char c = true.
+Proof.
+  unfold tchar. cbn [mem_n]. intros Ht. unfold plain_char, printable.
+  repeat (apply orb_true_iff in Ht as [Ht|Ht]); lia.
+Qed.
+
+Lemma token_plain s : forallb is_token s = true -> plain s = true.
+Proof.
+  intros Ht. unfold plain. apply forallb_forall. intros c Hc. rewrite forallb_forall in Ht.
+  apply tchar_plain, is_token_tchar, Ht, Hc.
+Qed.
+
+(* whatever the flag says, a SameSite value that got through needs no escaping *)
+Lemma emitted_samesite_plain validate r line : make_cookie validate r = Ok line -> samesite_plain r.
+Proof.
+  intros Hm s Hs. destruct (emitted_samesite_checked validate r line Hm s Hs) as [Ho|Ht];
+    [apply samesite_ok_plain, Ho|apply token_plain, Ht].
+Qed.
+
+Lemma validated_samesite_plain r line : make_cookie true r = Ok line -> samesite_plain r.
+Proof. apply emitted_samesite_plain. Qed.
 
 (* ---------------------------------------------------------------- what must raise *)
 Lemma token_forall_tchar k : forallb is_token k = true -> forallb tchar k = true.
@@ -546,10 +571,22 @@ Proof.
   destruct (mc_value r); [|eexists; reflexivity].
   destruct (valid_cookie_name_res (r_name r)) as [[|]|]; try (eexists; reflexivity).
   unfold mc_samesite. rewrite Hs.
-  destruct (validate && negb (samesite_ok s)); [eexists; reflexivity|].
-  unfold morsel_serialize, mc_morsel. cbn [m_samesite m_secure].
-  destruct (is_none_nonempty s Hn) as (c & t & ->). cbn [truthy]. rewrite Hsec, Hn. cbn [negb andb].
-  eexists. reflexivity.
+  destruct validate; [destruct (samesite_ok s)|destruct (forallb is_token s)]; try (eexists; reflexivity);
+  unfold morsel_serialize, mc_morsel; cbn [m_samesite m_secure];
+  destruct (is_none_nonempty s Hn) as (c & t & ->); cbn [truthy]; rewrite Hsec, Hn; cbn [negb andb];
+  eexists; reflexivity.
+Qed.
+
+Theorem rejects_unvalidated_non_token r s : r_samesite r = Some s -> forallb tchar s = false ->
+  exists e, make_cookie false r = Raise e.
+Proof.
+  intros Hs Hl. unfold make_cookie. destruct (mc_bad_max_age r); [eexists; reflexivity|].
+  destruct (is_ascii (r_name r)); cbn [negb]; [|eexists; reflexivity].
+  destruct (mc_value r); [|eexists; reflexivity].
+  destruct (valid_cookie_name_res (r_name r)) as [[|]|]; try (eexists; reflexivity).
+  unfold mc_samesite. rewrite Hs.
+  destruct (forallb is_token s) eqn:Et; [|eexists; reflexivity].
+  rewrite (token_forall_tchar _ Et) in Hl. discriminate.
 Qed.
 
 (* ---------------------------------------------------------------- and nothing else raises *)
@@ -574,13 +611,13 @@ Proof.
   - unfold is_ascii. apply token_ascii, Ht.
 Qed.
 
-Theorem make_cookie_accepts validate r :
+Theorem make_cookie_accepts (validate : bool) (r : request) :
   mc_bad_max_age r = false ->
   name_accepted (r_name r) = true ->
   (forall t, r_value r = CText t -> is_ascii t = true) ->
   req_octets r -> plain (r_date r) = true ->
   (forall s, r_samesite r = Some s ->
-     plain s = true /\ (validate = true -> samesite_legal s = true) /\ (is_none s = true -> r_secure r = true)) ->
+     (if validate then samesite_legal s else forallb tchar s) = true /\ (is_none s = true -> r_secure r = true)) ->
   exists line, make_cookie validate r = Ok line.
 Proof.
   intros Hma Hn Hv Hro Hdate Hss.
@@ -591,10 +628,14 @@ Proof.
   rewrite Hmv, Hres.
   assert (Hms : mc_samesite validate r = Ok (r_samesite r)).
   { unfold mc_samesite. destruct (r_samesite r) as [s|] eqn:Es; [|reflexivity].
-    destruct (Hss s eq_refl) as (_ & Hl & _). destruct validate; [|reflexivity].
-    rewrite samesite_ok_legal, (Hl eq_refl). reflexivity. }
+    destruct (Hss s eq_refl) as (Hl & _). destruct validate.
+    - rewrite samesite_ok_legal, Hl. reflexivity.
+    - rewrite (tchar_forall_token _ Hl). reflexivity. }
   rewrite Hms.
-  assert (Hsp : samesite_plain r) by (intros s Hs; apply (Hss s Hs)).
+  assert (Hsp : samesite_plain r).
+  { intros s Hs. destruct (Hss s Hs) as (Hl & _). destruct validate.
+    - apply samesite_ok_plain. rewrite samesite_ok_legal. exact Hl.
+    - apply token_plain, tchar_forall_token, Hl. }
   assert (Hvalid : valid_cookie_name (r_name r) = true) by (unfold valid_cookie_name; rewrite Hres; reflexivity).
   pose proof (head_good r Hvalid (proj1 Hro)) as Hh.
   pose proof (attr_comps_good r (value_octets r) Hro Hdate Hsp) as Ha.
@@ -602,7 +643,7 @@ Proof.
   assert (Hnws : none_without_secure (mc_morsel r (value_octets r) (r_samesite r)) = false).
   { unfold none_without_secure. cbn [m_samesite m_secure mc_morsel].
     destruct (truthy (r_samesite r)) as [ss|] eqn:Ets; [|reflexivity].
-    apply truthy_some in Ets as [Ets _]. destruct (Hss ss Ets) as (_ & _ & Hsec).
+    apply truthy_some in Ets as [Ets _]. destruct (Hss ss Ets) as (_ & Hsec).
     destruct (is_none ss); [rewrite (Hsec eq_refl); reflexivity|apply andb_false_r]. }
   rewrite Hnws.
   assert (Hprint : forallb printable (morsel_line (mc_morsel r (value_octets r) (r_samesite r))) = true).
@@ -676,4 +717,28 @@ Proof.
   intros Hv He Hp Hd Hc Hdate Hss Hm. rewrite (set_cookie_text validate r t b Hv He) in Hm.
   apply (one_cookie_exact_attrs validate (with_value r (CBytes b)) line); try assumption.
   repeat split; try assumption. cbn. eapply utf8_encode_some_octets, He.
+Qed.
+
+(* ---------------------------------------------------------------- the SameSite hypothesis discharged *)
+Theorem one_cookie_exact_attrs_any validate r line :
+  req_octets r -> plain (r_date r) = true ->
+  make_cookie validate r = Ok line ->
+  forallb printable line = true
+  /\ ref_parse line = Some (r_name r, value_octets r, requested r).
+Proof.
+  intros Hro Hd Hm. apply (one_cookie_exact_attrs validate r line Hro Hd); [|exact Hm].
+  apply (emitted_samesite_plain validate r line Hm).
+Qed.
+
+Theorem set_cookie_text_exact_any validate r t b line :
+  r_value r = CText t -> utf8_encode t = Some b ->
+  opt_octets (r_path r) -> opt_octets (r_domain r) -> opt_octets (r_comment r) ->
+  plain (r_date r) = true ->
+  set_cookie validate r = Ok line ->
+  forallb printable line = true /\ ref_parse line = Some (r_name r, b, requested (with_value r (CBytes b))).
+Proof.
+  intros Hv He Hp Hd Hc Hdate Hm.
+  apply (set_cookie_text_exact validate r t b line); try assumption.
+  rewrite (set_cookie_text validate r t b Hv He) in Hm.
+  exact (emitted_samesite_plain validate _ line Hm).
 Qed.
